@@ -19,6 +19,7 @@
 #include "varintBitmap.h"
 #include "varintDelta.h"
 #include "varintDict.h"
+#include "varintDimension.h"
 #include "varintElias.h"
 #include "varintFOR.h"
 #include "varintFloat.h"
@@ -502,6 +503,38 @@ static void op_scalar(obuf *o, const uint64_t *v, size_t n, int arg) {
     }
 }
 
+static void op_dimension(obuf *o, const uint64_t *v, size_t n, int arg) {
+    /* bit / byte matrices of different shapes built one after another in the same static buffer */
+    static const int SH[3][2] = {{4, 10}, {4, 12}, {6, 9}};
+    static uint8_t MAT[256];
+    int R = SH[arg][0], C = SH[arg][1];
+    memset(MAT, 0, sizeof MAT);
+    varintDimensionPair dim = varintDimensionPairEncode(MAT, (size_t)R, (size_t)C);
+    o_u64(o, (uint64_t)dim);
+    for (int r = 0; r < R; r++) {
+        for (int c = 0; c < C; c++) {
+            if (((size_t)(r * C + c) + v[(size_t)(r + c) % n]) & 1) {
+                varintDimensionPairEntrySetBit(MAT, (size_t)r, (size_t)c, true, dim);
+            }
+        }
+    }
+    o_bytes(o, MAT, 2 + (size_t)(R * C + 7) / 8);
+    for (int r = 0; r < R; r++) {
+        for (int c = 0; c < C; c++) {
+            o_u64(o, (uint64_t)varintDimensionPairEntryGetBit(MAT, (size_t)r, (size_t)c, dim));
+        }
+    }
+    o_u64(o, (uint64_t)varintDimensionPairEntryToggleBit(MAT, (size_t)(R - 1), (size_t)(C - 1), dim));
+    memset(MAT, 0, sizeof MAT);
+    dim = varintDimensionPairEncode(MAT, (size_t)R, (size_t)C);
+    for (int r = 0; r < R; r++) {
+        for (int c = 0; c < C; c++) {
+            varintDimensionPairEntrySetUnsigned(MAT, (size_t)r, (size_t)c, (uint64_t)(r * 16 + c), VARINT_WIDTH_8B, dim);
+        }
+    }
+    o_bytes(o, MAT, 2 + (size_t)(R * C));
+}
+
 typedef struct {
     const char *name;
     opfn fn;
@@ -567,6 +600,9 @@ static void build_ops(void) {
     add("bitmap.runs ops", op_bitmap, 1, 4, 0);
     add("bitmap.dense ops", op_bitmap, 2, 4, 0);
     add("scalar.tagged/external", op_scalar, 0, 4, 0);
+    add("dimension.bit/byte matrix 4x10", op_dimension, 0, 4, 0);
+    add("dimension.bit/byte matrix 4x12", op_dimension, 1, 4, 0);
+    add("dimension.bit/byte matrix 6x9", op_dimension, 2, 4, 0);
 }
 
 static void run_op(int i, obuf *o) {
